@@ -634,3 +634,81 @@ func (c *fnCtx) elemPtrValue(r ast.Expr, pre *[]fnBind) string {
 	bindRaw(pre, "_", "go_get "+x.name+" "+tm) // &s[i] checks the index
 	return "(Some " + tm + ")"
 }
+
+// ---------------------------------------------------------------- an iterator parameter that is only ranged over
+
+// seqTypeOf: iter.Seq[T]
+func (c *fnCtx) seqTypeOf(e ast.Expr) *fnType {
+	ix, ok := e.(*ast.IndexExpr)
+	if !ok {
+		return nil
+	}
+	sel, ok := ix.X.(*ast.SelectorExpr)
+	if !ok || sel.Sel.Name != "Seq" {
+		return nil
+	}
+	if id, ok := sel.X.(*ast.Ident); !ok || id.Name != "iter" || id.Obj != nil {
+		return nil
+	}
+	return &fnType{k: "seq", elem: c.goType(ix.Index)}
+}
+
+// seqOnlyRanged: the iter.Seq parameter p is mentioned only as the operand of range statements
+func seqOnlyRanged(fd *ast.FuncDecl, p *ast.Object) bool {
+	ranged := map[*ast.Ident]bool{}
+	ast.Inspect(fd.Body, func(n ast.Node) bool {
+		if r, ok := n.(*ast.RangeStmt); ok {
+			if id, ok := r.X.(*ast.Ident); ok && id.Obj == p {
+				ranged[id] = true
+			}
+		}
+		return true
+	})
+	ok := true
+	ast.Inspect(fd.Body, func(n ast.Node) bool {
+		if id, isId := n.(*ast.Ident); isId && id.Obj == p && !ranged[id] {
+			ok = false
+		}
+		return true
+	})
+	return ok
+}
+
+// seqRange: `for v := range it` over an iter.Seq[T] parameter: the iterator is represented by the
+// sequence of values it yields (option (list T): None = the nil function, whose call panics), so
+// the loop is a range over that list; stopping early (break, return) leaves the rest unconsumed.
+// Returns the equivalent `for _, v := range <list>` (the same node every time the statement is
+// translated, so that its Fixpoint is emitted once).
+func (c *fnCtx) seqRange(v *ast.RangeStmt, pre *[]fnBind) *ast.RangeStmt {
+	id, ok := v.X.(*ast.Ident)
+	if !ok {
+		return nil
+	}
+	x := c.lookup(id)
+	if x == nil || x.typ.k != "seq" {
+		return nil
+	}
+	if v.Value != nil || v.Tok != token.DEFINE {
+		c.lostAt(v, "range over the iterator %s with two variables", x.name)
+	}
+	if c.seqLoops == nil {
+		c.seqLoops = map[*ast.RangeStmt]*ast.RangeStmt{}
+		c.seqLists = map[*ast.RangeStmt]*fnVar{}
+	}
+	rw := c.seqLoops[v]
+	if rw == nil {
+		w := c.newVar(x.name+"_seq", &fnType{k: "slice", elem: x.typ.elem}, "local")
+		w.pos = v.Pos()
+		obj := ast.NewObj(ast.Var, w.name)
+		c.vars[obj] = w
+		w.obj = obj
+		lid := &ast.Ident{Name: w.name, NamePos: v.X.Pos(), Obj: obj}
+		rw = &ast.RangeStmt{For: v.For, Key: &ast.Ident{Name: "_", NamePos: v.For}, Value: v.Key, TokPos: v.TokPos, Tok: v.Tok, Range: v.Range, X: lid, Body: v.Body}
+		if v.Key == nil {
+			rw.Key, rw.Value, rw.Tok = nil, nil, token.ILLEGAL
+		}
+		c.seqLoops[v], c.seqLists[v] = rw, w
+	}
+	bindRaw(pre, c.seqLists[v].name, "go_seq "+x.name)
+	return rw
+}
